@@ -59,7 +59,7 @@ fn apply(img: &mut Vec<u8>, w: &W, ranges: Option<&[(usize, usize)]>) {
 }
 
 pub fn gen_workloads(ctx: &Ctx, rng: &mut Rng) -> Vec<Workload> {
-    let n = ctx.scale(if ctx.thorough() { 8 } else { 3 });
+    let n = ctx.scale(if ctx.thorough() { 8 } else { 5 });
     let mut v = Vec::new();
     for i in 0..n {
         let profile = *rng.pick(&[4u8, 1, 3, 0, 4]);
@@ -224,6 +224,7 @@ pub struct St {
     pub directed: u64,
     pub golden_based: u64,
     pub direct_workloads: u64,
+    pub reader_workloads: u64,
     pub distinct: std::collections::BTreeSet<u64>,
     pub shapes: std::collections::BTreeSet<String>,
 }
@@ -648,6 +649,10 @@ pub fn run(ctx: &Ctx) -> Shard {
         // a quarter of the random workloads are recorded with direct_writes(true): the order of writes and
         // syncs must be the same (an "O_DIRECT data is on disk when write returns" shortcut would drop a sync)
         let direct = wl.base.is_none() && h.origin != "directed" && wi % 4 == 1;
+        let with_reader = wl.base.is_none() && h.origin != "directed" && wi % 4 == 2;
+        if with_reader {
+            st.reader_workloads += 1;
+        }
         exec::set_direct_writes(direct);
         if direct {
             st.direct_workloads += 1;
@@ -656,7 +661,17 @@ pub fn run(ctx: &Ctx) -> Shard {
             let mut db = exec::open_db(&path, h).map_err(|e| e.to_string())?;
             for (k, t) in h.txs.iter().enumerate() {
                 vio.mark(&format!("B {}", k));
-                exec::exec_tx(&mut run, &db, &path, t, k, &mut committed);
+                if with_reader && !t.reopen {
+                    // a reader is open when the writer begins and is gone again before the writer commits
+                    // (what the writer decided about pending pages at its begin must still hold at its commit)
+                    let reader = std::cell::RefCell::new(db.tx(false).ok());
+                    let close = || {
+                        reader.borrow_mut().take();
+                    };
+                    exec::exec_tx_mid(&mut run, &db, &path, t, k, &mut committed, Some(&close));
+                } else {
+                    exec::exec_tx(&mut run, &db, &path, t, k, &mut committed);
+                }
                 if run.out.aborted {
                     return Err(crate::report::workload_failure(run.out.violations.first(), &format!("transaction {} was cut short", k)));
                 }
@@ -723,6 +738,7 @@ pub fn run(ctx: &Ctx) -> Shard {
     shard.count("max_pending", st.max_pending);
     shard.count("directed_workloads", st.directed);
     shard.count("workloads_recorded_with_direct_writes", st.direct_workloads);
+    shard.count("workloads_with_a_reader_open_at_every_writer_begin_and_closed_before_its_commit", st.reader_workloads);
     shard.count("workloads_on_files_written_by_the_pinned_release", st.golden_based);
     shard.count("commits_that_extended_the_file", st.growth_commits);
     shard.count("commits_with_a_multi_page_free_list", st.multi_page_freelist_commits);
